@@ -41,79 +41,86 @@ def _guards(Q, p=None):
 
 
 # ----------------------------------------------------------------------------------------------
+def _violated_instances():
+    """Concrete clause tables, models, ignore lists; the cost is what the solver reports for that model: the number of
+    unsatisfied clauses among the owners that are not ignored (the soft clauses)."""
+    tables = [
+        {3: [[1, 2], [-1, 4]], 7: [[5]], 8: [[-5, 6], [2]]},
+        {10: [[1]], 4: [[-1], [2, 3]], 6: [[-2, -3]], 9: []},
+        {5: [[1, -2], [2, -1], [3]]},
+    ]
+    models = [[1, 2, 3, 4, 5, 6], [-1, -2, -3, -4, -5, -6], [1, -2, 3, -4, 5, -6], [-1, 2, -3, 4, -5, 6], [1, 2, -3, -4, -5, 6], [-1, -2, 3, 4, 5, -6]]
+    for t in tables:
+        keys = list(t)
+        ignores = [[], keys[:1], keys[1:], keys[-1:]]
+        for m in models:
+            for ign in ignores:
+                unsat = [(k, c) for k, cl in t.items() if k not in ign for c in cl if not any(x in c for x in m)]
+                yield t, m, ign, len(unsat), {k for k, _ in unsat}
+
+
 def violated(rep, ex: Explorer):
-    """MCS.violated: a conditional is violated iff one of its nf clauses has no literal in the model; ignored owners
-    are skipped."""
+    """MCS.violated: the owners read off a model are exactly the conditionals outside the ignore list that have a
+    non-falsification clause without a literal of the model.  Decided by evaluating `get_violated_conditional` on concrete
+    clause tables, models and ignore lists, with the cost the solver reports for that model (the number of such clauses),
+    however the scan is written and wherever it stops."""
     qual = f"{OP}.get_violated_conditional"
     site = fn_label(ex.prog, qual)
-    MODEL, IGN = ("model",), ("ignore",)
-
-    def setup(I):
-        s, es = _mk(I)
-        return [s, ElemV(MODEL, "coll", "lit"), Sym("cost", "int"), ElemV(IGN, "coll", "key")], {}
-
-    paths = ex.run(qual, setup, summaries=dict(wrappers.SUMMARIES), key="violated")
     n = 0
-    for p in paths:
-        if p.outcome[0] != "return":
+    first = {}
+    fi = ex.prog.function(qual)
+    init = ex.prog.lookup_method(OP, "__init__")
+    insts = list(_violated_instances())
+    for pos, (t, m, ign, cost, want) in enumerate(insts):
+        # the object is one the constructor made, and it has answered another question before (another model, another
+        # ignore list over the same clauses): what it may have kept from that must not show in this answer
+        prev = next((q for q in insts[pos + 1:] + insts[:pos] if q[0] is t and q[2] != ign and q[3] > 0), None)
+
+        def setup(I, t=t, m=m, ign=ign, cost=cost, prev=prev):
+            s, es = _mk(I)
+            nf = I.alloc(HDict(entries={k: I.alloc(HList([("one", I.new_list([Const(x) for x in c])) for c in cl])) for k, cl in t.items()}))
+            I.deref(es).entries["nf_cnf_dict"] = nf
+            if init is not None:
+                I.deref(s).attrs.clear()
+                I.call_function(init, [s, es], {}, None)
+            if prev is not None:
+                I.call_function(fi, [s, I.new_list([Const(x) for x in prev[1]]), Const(prev[3]), I.new_list([Const(x) for x in prev[2]])], {}, None, force_inline=True)
+            return [s, I.new_list([Const(x) for x in m]), Const(cost), I.new_list([Const(x) for x in ign])], {}
+
+        paths = ex.run(qual, setup, summaries=dict(wrappers.SUMMARIES), key=f"violated-{n}", unroll_while=12)
+        n += 1
+        slot = f"clauses {t}, model {m}, ignore {ign}, cost {cost}"
+        if len(paths) != 1:
+            raise AnalysisError(f"{site}: {len(paths)} paths on concrete data ({slot}): {[k for p in paths for k, v in p.decisions][:2]!r}"[:400])
+        p = paths[0]
+        got = None
+        if p.outcome[0] == "return":
+            rv = p.outcome[1]
+            o = p.state.heap.get(rv.oid) if isinstance(rv, Ref) else None
+            if isinstance(o, HList) and all(sg[0] == "one" and isinstance(sg[1], Const) for sg in o.segs):
+                got = {sg[1].value for sg in o.segs}
+            else:
+                raise AnalysisError(f"{site}: the result on concrete data is not a collection of keys ({slot}): {view(p.state, rv)!r}"[:400])
+        if got == want:
             continue
-        for ev, Q in iter_events(p.events):
-            if ev.kind != "list.append" or len(Q) < 2:
-                continue
-            outer, ocase = Q[0]
-            inner, icase = Q[-1]
-            where = f"{site}:{ev.node.lineno}"
-            n += 1
-            key = ev.value
-            ok_key = isinstance(key, ElemV) and key.var == outer.evar and key.role == "key" and outer.fam == KEYS_D
-            rep.check(ok_key, "MCS.violated", where, "recorded owner", "the conditional recorded as violated is the owner of the unsatisfied clause", extracted=repr(key), required="key of the clause's conditional", function=site)
-            ok_fam = inner.fam == ("members", ("cnf", material(outer.evar))) or (inner.fam[0] == "members" and isinstance(inner.fam[1], tuple) and inner.fam[1][:1] == ("cnf",) and F.equiv(inner.fam[1][1], material(outer.evar)))
-            rep.check(ok_fam, "MCS.violated", where, "clauses examined", "the clauses examined are those of the conditional's non-falsification CNF", extracted=F.show_desc(inner.fam), required="nf clauses of the same conditional", function=site)
-            g = _guards(Q)
-            ign = g.get(("in", ("elem", outer.evar, "key"), IGN))
-            rep.check(ign is False, "MCS.violated", where, "ignored owners skipped", "owners listed in `ignore` are never reported", extracted=f"in ignore: {ign}", required="not in ignore", function=site)
-            # clause unsatisfied: no literal of the model occurs in it
-            sat_pred = None
-            for k, v in icase.guard:
-                if k[0] in ("exists", "forall") and k[2] == ("members", MODEL):
-                    body = F.subst_any(k[4], {k[1]: ("var", "_x")})
-                    occurs = ("in", ("elem", ("var", "_x"), "lit"), inner.evar)
-                    if k[0] == "exists" and body == occurs:
-                        sat_pred = v
-                    elif k[0] == "forall" and body == ("not", occurs):
-                        # ∀x: x∉clause  is  ¬∃x: x∈clause
-                        sat_pred = not v
-            if sat_pred is None:
-                about_model = [k for k, v in icase.guard if F.mentions(k, {MODEL})]
-                if about_model:
-                    raise AnalysisError(f"{where}: the test that decides whether a clause is unsatisfied is in a form the analysis does not read: " + "; ".join(show_pred(k)[:120] for k in about_model))
-                rep.violation("MCS.violated", where, "clause unsatisfied", "a clause counts as violated iff no literal of the model occurs in it",
-                              extracted="the clause is recorded without consulting the model", required="¬∃x∈model: x∈clause", function=site)
-                continue
-            rep.check(sat_pred is False, "MCS.violated", where, "clause unsatisfied", "a clause counts as violated iff no literal of the model occurs in it",
-                      extracted=f"∃x∈model: x∈clause = {sat_pred}", required="False", function=site)
-    # early exits: reading off the owners may stop before all clauses were looked at only when the number of unsatisfied
-    # soft clauses found so far equals the cost of the optimum (then nothing further can be violated)
-    seen = set()
-    for p in paths:
-        for ev, Q in iter_events(p.events):
-            if ev.kind != "loop" or not Q:
-                continue
-            for c in ev.data.get("exits") or []:
-                if c.sig[0] != "return":
-                    continue
-                eq = [(k, v) for k, v in c.guard if k[0] == "cmp" and k[1] == "==" and isinstance(k[2], tuple) and k[2][0] == "lin"]
-                ok = False
-                for k, v in eq:
-                    terms = dict(k[2][1][0])
-                    counter = [t for t in terms if isinstance(t, tuple) and t[:1] == ("carried",) and t[-1] == "counter" or (isinstance(t, tuple) and t[:1] == ("carried",))]
-                    ok = ok or (v is True and "cost" in terms and len(counter) == 1 and terms["cost"] == -terms[counter[0]])
-                key = tuple((show_pred(k)[:80], v) for k, v in c.guard)
-                if key in seen:
-                    continue
-                seen.add(key)
-                rep.check(ok, "MCS.violated", site, f"early exit {len(seen)}", "the scan stops early only when as many unsatisfied clauses were found as the optimum costs", extracted=" ∧ ".join(f"{a}={b}" for a, b in key)[:300], required="counter == cost", function=site)
-    rep.floor("MCS.violated record sites", n, 1)
+        if got is None:
+            kind, text = "result", f"{p.outcome[0]} {p.outcome[1]!r}"[:120]
+        elif got - want:
+            extra = sorted(got - want)
+            if any(k in ign for k in extra):
+                kind, text = "ignored owners skipped", f"ignored owner(s) {[k for k in extra if k in ign]} reported"
+            else:
+                kind, text = "clause unsatisfied", f"owner(s) {extra} reported although every clause of theirs holds a literal of the model"
+        else:
+            kind, text = "every unsatisfied clause", f"owner(s) {sorted(want - got)} with an unsatisfied clause are not reported"
+        first.setdefault(kind, f"{text} ({slot}: {sorted(got) if got is not None else got}, expected {sorted(want)})")
+    descr = {"result": "the owners are handed back as a collection of keys",
+             "ignored owners skipped": "owners listed in `ignore` are never reported",
+             "clause unsatisfied": "a clause counts as violated iff no literal of the model occurs in it; the conditional recorded is the owner of that clause",
+             "every unsatisfied clause": "every owner of an unsatisfied clause is reported: the scan stops early only when as many unsatisfied clauses were found as the optimum costs"}
+    for kind, d in descr.items():
+        rep.check(kind not in first, "MCS.violated", site, kind, d, extracted=first.get(kind, f"as required on {n} concrete instances")[:400], required="{c ∉ ignore : some nf clause of c has no literal of the model}", function=site)
+    rep.floor("MCS.violated instances evaluated", n, 60)
 
 
 def block(rep, ex: Explorer):
